@@ -26,7 +26,7 @@ import decision_table as T   # noqa: E402
 META = dict(
     level="fault_enumeration",
     technique="every documented input defect alone and in pairs x force-output x entry point, each outcome compared with a documentation-derived decision table",
-    text="For 3 valid base points per input style (MSSM: SLHA and GM2Calc scheme; THDM: mass and gauge basis) every documented defect (MSSM: 10 SM/Higgs-sector conditions, 15 soft masses in two magnitudes, massless chargino, 5 tachyons; THDM: 16) is applied alone and in every compatible pair, with force-output off and on, through gm2calc.x (minimal, detailed and SLHA output; thorough: all 5 formats x 4 loop/resummation settings), the C++ interface and the C interface. The decision table predicts: without force - refusal with EInvalidInput/EPhysicalProblem (C: error code), exit 1, no physics number; with force - a result accompanied by a warning/problem indication; exit status non-zero iff refused or (MSSM) a tachyon is flagged; a result without any indication is finite. Deviation bound: 2 simultaneous defects.",
+    text="For 3 valid base points per input style (MSSM: SLHA and GM2Calc scheme; THDM: mass and gauge basis) every documented defect (MSSM: 10 SM/Higgs-sector conditions, 15 soft masses in two magnitudes, massless chargino, 5 tachyons; THDM: 16) is applied alone and in every compatible pair, with force-output off and on, through gm2calc.x (minimal, detailed and SLHA output; thorough: all 5 formats x 4 loop/resummation settings), the C++ interface and the C interface. The decision table predicts: without force - refusal with EInvalidInput/EPhysicalProblem (C: error code), exit 1, no physics number; with force - a result accompanied by a warning/problem indication; exit status non-zero iff refused or (MSSM) a tachyon is flagged; a result without any indication is finite; the warning an input-determined defect draws alone persists in every forced pair containing it. Deviation bound: 2 simultaneous defects.",
     note="trusted: the realisation of each defect as concrete numbers (decision_table.py), cli_api's transcription of the example programs' call order; the MSSM C interface has no force-output switch (only force=0 is reachable there); Higgs-sector tachyons are unreachable from the inputs (MA is a pole-mass input)",
     design_ref="3/C16")
 
